@@ -189,4 +189,12 @@ CHECKS['C18'] = dict(
          'exit 65 names the source. Plus header mutations and raw files (empty, NUL bytes, BOM, CR LF, 100 kB line, thousands of blank lines).',
     note='The property quantifies over every UTF-8 text; what is decided is the complete 1- (thorough: partial 2-) mutation neighbourhood of the corpus. Found and repaired KF-C18-INT and KF-C18-REPL (fix: commits); '
          'KF-C18-NAMETOOLONG is a recorded known finding matched by predicate + defect model. Unbounded-cost inputs (9**9**9) are not generated.')
+CHECKS['C15'] = dict(
+    level='exploration',
+    technique='bounded-exhaustive enumeration of FILE-LISTs (populate) and of trees x files-matcher expressions x depth options (match) through the real CLI against a reference model over a tree data structure',
+    text='Populate: every list of <=2 entries over 5 names x 8 entry kinds (file, =, +=, dir, nested =, nested +=, dir-contents-of as = and +=) plus invalid names, every list of 3 over a reduced alphabet, each as `dir d = L` and as '
+         '`dir d += L` onto a directory holding a file, a directory and symbolic links (to file, to dir, dangling): ~16 000 runs under --keep; tree on disk == reference interpretation, or HARD_ERROR (invalid names: rejected), '
+         'nothing outside d, home unchanged; 11 whole-directory / through-a-link cases. Match: all 441 trees of <=4 nodes (thorough 981 of <=5) from a 14-item universe x 160 files-matcher expressions x 5 (thorough 8) depth options, '
+         'each asserted through dir-contents in the polarity the reference gives.',
+    note='uid 0 (no permission failures); the partial tree after a failing population is not compared; `contents` only on regular files.')
 NOT_APPLICABLE = {}
